@@ -21,7 +21,7 @@ type FileTap struct {
 	Yield func(ord int)
 }
 
-var taps sync.Map // *os.File -> *FileTap
+var taps sync.Map     // *os.File -> *FileTap
 var pathTaps sync.Map // file name -> *FileTap, for files the library opens itself
 
 func lookupTap(w any) (*FileTap, bool) {
